@@ -940,6 +940,7 @@ func JSONDec(t *Type, j *JV, env *Env, m JSONMode) (*Value, error) {
 		}
 		kt := dictKeyType(t)
 		v := &Value{}
+		pairArray := false
 		switch j.K {
 		case JObj:
 			for _, mem := range j.O {
@@ -959,9 +960,7 @@ func JSONDec(t *Type, j *JV, env *Env, m JSONMode) (*Value, error) {
 				v.Elems = append(v.Elems, &Value{Fields: []*Value{kv, ev}})
 			}
 		case JArr:
-			if m.Strict {
-				return nil, reject("strict: a dictionary is written as an object")
-			}
+			pairArray = true
 			for _, e := range j.A {
 				if e.K == JNull {
 					return nil, reject("null is not supported when reading")
@@ -995,6 +994,18 @@ func JSONDec(t *Type, j *JV, env *Env, m JSONMode) (*Value, error) {
 			}
 		default:
 			return nil, undef("neither object nor array for a dictionary")
+		}
+		if m.Strict && pairArray {
+			// a writer may only resort to the pair array when the object form cannot carry a key (not valid UTF-8)
+			binary := false
+			for _, e := range v.Elems {
+				if kt.Kind == KString && !utf8.ValidString(e.Fields[0].S) {
+					binary = true
+				}
+			}
+			if !binary {
+				return nil, reject("strict: a dictionary is written as an object")
+			}
 		}
 		for i := range v.Elems {
 			for k := i + 1; k < len(v.Elems); k++ {
